@@ -22,6 +22,7 @@ def groupOf (tok : String) : Option (List DtOp) :=
   match opOf tok with
   | some o => some [.api o]
   | none =>
+    if tok == "g" then some [.setRcrit] else
     match tok.splitOn ":" with
     | ["c", pre, post] =>
       some ((cbStepPlan (if b01 pre then some () else none) (if b01 post then some () else none)).map DtOp.api)
@@ -32,31 +33,32 @@ def groupOf (tok : String) : Option (List DtOp) :=
     | _ => none
 
 /-- run one group through a flag machine: prims (as strings) with the dt markers in between -/
-def runGroup {F : Type} (api apiForce : F → Op Unit → Except String (List String × F)) :
+def runGroup {F : Type} (api apiForce : F → Op Unit → Except String (List String × F)) (setR : F → F) :
     F → List DtOp → List String → Except String (List String × F)
   | f, [], acc => .ok (acc.reverse, f)
+  | f, .setRcrit :: r, acc => runGroup api apiForce setR (setR f) r acc
   | f, .forceSync :: r, acc =>
     match apiForce f .synchronize with
     | .error e => .error e
-    | .ok (ps, f') => runGroup api apiForce f' r (ps.reverse ++ acc)
+    | .ok (ps, f') => runGroup api apiForce setR f' r (ps.reverse ++ acc)
   | f, .api o :: r, acc =>
     match api f o with
     | .error e => .error e
     | .ok (ps, f') =>
       let tail := match o with | .step => ["stepEnd"] | .poke _ => ["cbEdit"] | _ => []
-      runGroup api apiForce f' r ((ps ++ tail).reverse ++ acc)
-  | f, .begin :: r, acc => runGroup api apiForce f r ("intBegin" :: acc)
-  | f, .flipDt :: r, acc => runGroup api apiForce f r ("flipDt" :: acc)
-  | f, .setDtLast :: r, acc => runGroup api apiForce f r ("setDtLast" :: acc)
-  | f, .restoreDt :: r, acc => runGroup api apiForce f r ("restoreDt" :: acc)
+      runGroup api apiForce setR f' r ((ps ++ tail).reverse ++ acc)
+  | f, .begin :: r, acc => runGroup api apiForce setR f r ("intBegin" :: acc)
+  | f, .flipDt :: r, acc => runGroup api apiForce setR f r ("flipDt" :: acc)
+  | f, .setDtLast :: r, acc => runGroup api apiForce setR f r ("setDtLast" :: acc)
+  | f, .restoreDt :: r, acc => runGroup api apiForce setR f r ("restoreDt" :: acc)
 
-def runGroups {F : Type} (api apiForce : F → Op Unit → Except String (List String × F)) (fs : F → String) :
+def runGroups {F : Type} (api apiForce : F → Op Unit → Except String (List String × F)) (setR : F → F) (fs : F → String) :
     F → List (List DtOp) → List String → String
   | _, [], acc => ";".intercalate acc.reverse
   | f, g :: gs, acc =>
-    match runGroup api apiForce f g [] with
+    match runGroup api apiForce setR f g [] with
     | .error e => ";".intercalate (("error " ++ e) :: acc).reverse
-    | .ok (ps, f') => runGroups api apiForce fs f' gs ((",".intercalate ps ++ "@" ++ fs f') :: acc)
+    | .ok (ps, f') => runGroups api apiForce setR fs f' gs ((",".intercalate ps ++ "@" ++ fs f') :: acc)
 
 def whApi (c : Config) (f : Flags) (o : Op Unit) : Except String (List String × Flags) :=
   match apiOps c f o with
@@ -126,11 +128,11 @@ def step (toks : List String) : String :=
   | "W" :: co :: ke :: cr :: c2 :: sa :: kp :: fx :: isy :: rc :: al :: ops =>
     match coordOf co, ke.toNat?, cr.toNat?, ops.mapM groupOf with
     | some co, some ke, some cr, some ops =>
-      runGroups (whApi ⟨co, ke, cr, b01 c2, b01 sa, b01 kp, b01 fx⟩) (whApi ⟨co, ke, cr, b01 c2, b01 sa, false, b01 fx⟩) flagsStr ⟨b01 isy, b01 rc, b01 al⟩ ops []
+      runGroups (whApi ⟨co, ke, cr, b01 c2, b01 sa, b01 kp, b01 fx⟩) (whApi ⟨co, ke, cr, b01 c2, b01 sa, false, b01 fx⟩) id flagsStr ⟨b01 isy, b01 rc, b01 al⟩ ops []
     | _, _, _, _ => "bad-op"
   | "S" :: ty :: sa :: kp :: ci :: isy :: rc :: al :: ops =>
     match ty.toNat?, ops.mapM groupOf with
-    | some ty, some ops => runGroups (sabaApi ⟨ty, b01 sa, b01 kp, b01 ci⟩) (sabaApi ⟨ty, b01 sa, false, b01 ci⟩) flagsStr ⟨b01 isy, b01 rc, b01 al⟩ ops []
+    | some ty, some ops => runGroups (sabaApi ⟨ty, b01 sa, b01 kp, b01 ci⟩) (sabaApi ⟨ty, b01 sa, false, b01 ci⟩) id flagsStr ⟨b01 isy, b01 rc, b01 al⟩ ops []
     | _, _ => "bad-op"
   | ["FOOT"] => footStr
   | "E" :: p0 :: p1 :: n :: sa :: isy :: dt :: ops =>
@@ -140,15 +142,15 @@ def step (toks : List String) : String :=
   | "V" :: sa :: kp :: isy :: rc :: al :: ops =>
     match ops.mapM groupOf with
     | some ops => runGroups (varApi ⟨.jacobi, 0, 0, false, b01 sa, b01 kp, false⟩)
-        (varApi ⟨.jacobi, 0, 0, false, b01 sa, false, false⟩) flagsStr ⟨b01 isy, b01 rc, b01 al⟩ ops []
+        (varApi ⟨.jacobi, 0, 0, false, b01 sa, false, false⟩) id flagsStr ⟨b01 isy, b01 rc, b01 al⟩ ops []
     | none => "bad-op"
   | "MC" :: sa :: isy :: rc :: rr :: ad :: atm :: ops =>
     match ops.mapM groupOf with
-    | some ops => runGroups (mercApiCoarse (b01 sa)) (mercApiCoarse (b01 sa)) mflagsStr ⟨b01 isy, b01 rc, b01 rr, b01 ad, b01 atm⟩ ops []
+    | some ops => runGroups (mercApiCoarse (b01 sa)) (mercApiCoarse (b01 sa)) mSetRcrit mflagsStr ⟨b01 isy, b01 rc, b01 rr, b01 ad, b01 atm⟩ ops []
     | none => "bad-op"
   | "M" :: sa :: isy :: rc :: rr :: ad :: atm :: ops =>
     match ops.mapM groupOf with
-    | some ops => runGroups (mercApi (b01 sa)) (mercApi (b01 sa)) mflagsStr ⟨b01 isy, b01 rc, b01 rr, b01 ad, b01 atm⟩ ops []
+    | some ops => runGroups (mercApi (b01 sa)) (mercApi (b01 sa)) mSetRcrit mflagsStr ⟨b01 isy, b01 rc, b01 rr, b01 ad, b01 atm⟩ ops []
     | none => "bad-op"
   | _ => "bad-op"
 
